@@ -235,7 +235,7 @@ def r3_forwarding(ctx):
         if not narrow:
             raise Unrecognised(f"{sm.where}: the sum of a genome-wide array is computed as `{u(ei)[:100]}`")
     ctx.ob(sm.where, "the sum of a genome-wide array is the run-length array's own sum, accumulated in numpy's default accumulator (not in the dtype of the run values, "
-           "which may be as small as uint8)", deleg, u(ei)[:100], key="C09-R3|sum-delegates")
+           "which may be as small as uint8)", deleg, u(ei)[:100], key="C09-R3|sum-delegates", definite=True)
     td = ix.func(GT, "GenomicArrayGlobal.to_dict")
     env = local_env(td.node)
     e = single_return_expr(td.node)
@@ -338,7 +338,7 @@ def r6_sorted_sizes_and_fresh_dense(ctx):
     ret = an.summaries[key].returns
     shared = sorted(str(t) for t in ret if isinstance(t, tuple))
     ctx.ob(an.funcs[key].where, "the dense array of a run-length array is new memory (never the array of run values itself)", not shared, f"return provenance {sorted(map(str, ret))}",
-           key="C09-R6|dense-fresh")
+           key="C09-R6|dense-fresh", definite=True)
 
 
 from ..through_time import make_rule as _mk_tt, make_t2 as _mk_t2
